@@ -3232,6 +3232,154 @@ let rec client_loop h max_errors skip_verify wire sec ds count i =
 let exchange_recv h max_errors skip_verify wire sec ds =
   client_loop h max_errors skip_verify wire sec ds Z0 O
 
+type xret =
+| XPacket of packet
+| XErr of n
+| XCtxErr
+| XNetErr
+
+type mpc =
+| M_start
+| M_dialled
+| M_reading of z
+| M_returned of xret
+
+type hpc =
+| Hp_none
+| Hp_running
+| Hp_exited
+
+type xstate = { xmain : mpc; xhelper : hpc; ctx_done : bool;
+                derived_done : bool; conn_closed : bool;
+                ticker_stopped : bool; sent : bytes list }
+
+type xevent =
+| XStep
+| XDialFail
+| XDatagram of bytes
+| XReadErr
+| XTick
+| XCtxDone
+| XHelper
+
+(** val xinit : xstate **)
+
+let xinit =
+  { xmain = M_start; xhelper = Hp_none; ctx_done = false; derived_done =
+    false; conn_closed = false; ticker_stopped = false; sent = [] }
+
+(** val set_main : xstate -> mpc -> xstate **)
+
+let set_main s m =
+  { xmain = m; xhelper = s.xhelper; ctx_done = s.ctx_done; derived_done =
+    s.derived_done; conn_closed = s.conn_closed; ticker_stopped =
+    s.ticker_stopped; sent = s.sent }
+
+(** val do_return : xstate -> xret -> xstate **)
+
+let do_return s r =
+  { xmain = (M_returned r); xhelper = s.xhelper; ctx_done = s.ctx_done;
+    derived_done = true; conn_closed = true; ticker_stopped = true; sent =
+    s.sent }
+
+(** val write : xstate -> bytes -> bytes list **)
+
+let write s w =
+  if s.conn_closed then s.sent else app s.sent (w :: [])
+
+(** val xstep :
+    (bytes -> bytes) -> z -> z -> bool -> packet -> xstate -> xevent -> xstate **)
+
+let xstep h retry max_errors skip_verify request0 s = function
+| XStep ->
+  (match s.xmain with
+   | M_start ->
+     (match encode h request0 with
+      | Ok _ -> set_main s M_dialled
+      | Err e0 ->
+        { xmain = (M_returned (XErr e0)); xhelper = Hp_none; ctx_done =
+          s.ctx_done; derived_done = s.derived_done; conn_closed = true;
+          ticker_stopped = true; sent = s.sent }
+      | _ ->
+        { xmain = (M_returned (XErr (Npos (XO (XI (XO (XO (XO (XI
+          XH))))))))); xhelper = Hp_none; ctx_done = s.ctx_done;
+          derived_done = s.derived_done; conn_closed = true; ticker_stopped =
+          true; sent = s.sent })
+   | M_dialled ->
+     (match encode h request0 with
+      | Ok w ->
+        { xmain = (M_reading Z0); xhelper = Hp_running; ctx_done =
+          s.ctx_done; derived_done = s.derived_done; conn_closed =
+          s.conn_closed; ticker_stopped =
+          (negb (holds (gd g_Client_Exchange O) retry)); sent = (write s w) }
+      | _ -> s)
+   | M_reading _ ->
+     if s.conn_closed
+     then do_return s (if s.derived_done then XCtxErr else XNetErr)
+     else s
+   | M_returned _ -> s)
+| XDialFail ->
+  (match s.xmain with
+   | M_dialled ->
+     { xmain = (M_returned (if s.ctx_done then XCtxErr else XNetErr));
+       xhelper = Hp_none; ctx_done = s.ctx_done; derived_done =
+       s.derived_done; conn_closed = true; ticker_stopped = true; sent =
+       s.sent }
+   | _ -> s)
+| XDatagram d ->
+  (match s.xmain with
+   | M_reading count ->
+     if s.conn_closed
+     then s
+     else (match encode h request0 with
+           | Ok w ->
+             (match client_loop h max_errors skip_verify w request0.secret
+                      (d :: []) count O with
+              | Returned (p, _) -> do_return s (XPacket p)
+              | Failed (e0, _) -> do_return s (XErr e0)
+              | Waiting c -> set_main s (M_reading c))
+           | _ -> s)
+   | _ -> s)
+| XReadErr ->
+  (match s.xmain with
+   | M_reading _ -> do_return s (if s.derived_done then XCtxErr else XNetErr)
+   | _ -> s)
+| XTick ->
+  (match s.xhelper with
+   | Hp_running ->
+     (match encode h request0 with
+      | Ok w ->
+        if s.ticker_stopped
+        then s
+        else { xmain = s.xmain; xhelper = s.xhelper; ctx_done = s.ctx_done;
+               derived_done = s.derived_done; conn_closed = s.conn_closed;
+               ticker_stopped = s.ticker_stopped; sent = (write s w) }
+      | _ -> s)
+   | _ -> s)
+| XCtxDone ->
+  { xmain = s.xmain; xhelper = s.xhelper; ctx_done = true; derived_done =
+    true; conn_closed = s.conn_closed; ticker_stopped = s.ticker_stopped;
+    sent = s.sent }
+| XHelper ->
+  (match s.xhelper with
+   | Hp_running ->
+     if s.derived_done
+     then { xmain = s.xmain; xhelper = Hp_exited; ctx_done = s.ctx_done;
+            derived_done = s.derived_done; conn_closed = true;
+            ticker_stopped = s.ticker_stopped; sent = s.sent }
+     else s
+   | _ -> s)
+
+(** val xrun :
+    (bytes -> bytes) -> z -> z -> bool -> packet -> xstate -> xevent list ->
+    xstate **)
+
+let rec xrun h retry max_errors skip_verify request0 s = function
+| [] -> s
+| e :: r ->
+  xrun h retry max_errors skip_verify request0
+    (xstep h retry max_errors skip_verify request0 s e) r
+
 type key = n * n
 
 (** val key_eqb : key -> key -> bool **)
@@ -4085,7 +4233,7 @@ type dpc =
 | D_exit
 | D_end
 
-type hpc =
+type hpc0 =
 | H_start
 | H_locked
 | H_close
@@ -4100,7 +4248,7 @@ type hpc =
 type thread =
 | TServe of nat * spc
 | TDgram of dpc
-| TShut of hpc * bool
+| TShut of hpc0 * bool
 
 type state = { mu : bool; shut : bool; active : z; closes : nat; sdec : 
                bool; regs : nat list; closedc : nat list; cancelled : 
@@ -4258,7 +4406,7 @@ let step_dgram s i pc a =
      | _ -> None)
   | D_end -> None
 
-(** val step_shut : state -> nat -> hpc -> bool -> action -> state option **)
+(** val step_shut : state -> nat -> hpc0 -> bool -> action -> state option **)
 
 let step_shut s i pc e a =
   match pc with
@@ -10628,6 +10776,77 @@ let dispatch_c06 name bs zs =
                     Some ((TI (Zneg (XI (XI (XI (XI (XI (XO XH)))))))) :: []))
             else None
 
+(** val take_xevents : z list -> bytes list -> xevent list * bytes list **)
+
+let rec take_xevents ks bs =
+  match ks with
+  | [] -> ([], bs)
+  | k :: r ->
+    if Z.eqb k (Zpos (XO XH))
+    then (match bs with
+          | [] -> ([], [])
+          | d :: bs' ->
+            let (es, rest) = take_xevents r bs' in
+            (((XDatagram d) :: es), rest))
+    else let (es, rest) = take_xevents r bs in
+         (((if Z.eqb k Z0
+            then XStep
+            else if Z.eqb k (Zpos XH)
+                 then XDialFail
+                 else if Z.eqb k (Zpos (XI XH))
+                      then XReadErr
+                      else if Z.eqb k (Zpos (XO (XO XH)))
+                           then XTick
+                           else if Z.eqb k (Zpos (XI (XO XH)))
+                                then XCtxDone
+                                else XHelper) :: es), rest)
+
+(** val dispatch_c08 : bytes -> bytes list -> z list -> tok list option **)
+
+let dispatch_c08 name bs zs =
+  if name_is name (String ((Ascii (true, false, true, true, false, true,
+       true, false)), (String ((Ascii (false, true, true, true, false, true,
+       false, false)), (String ((Ascii (true, false, true, false, false,
+       true, true, false)), (String ((Ascii (false, false, false, true, true,
+       true, true, false)), (String ((Ascii (true, true, false, false, false,
+       true, true, false)), (String ((Ascii (false, false, false, true,
+       false, true, true, false)), (String ((Ascii (true, false, false,
+       false, false, true, true, false)), (String ((Ascii (false, true, true,
+       true, false, true, true, false)), (String ((Ascii (true, true, true,
+       false, false, true, true, false)), (String ((Ascii (true, false, true,
+       false, false, true, true, false)), EmptyString))))))))))))))))))))
+  then (match zs with
+        | [] -> Some ((TI (Zneg (XO (XI (XI (XI (XI (XO XH)))))))) :: [])
+        | rt :: l ->
+          (match l with
+           | [] -> Some ((TI (Zneg (XO (XI (XI (XI (XI (XO XH)))))))) :: [])
+           | mx :: l0 ->
+             (match l0 with
+              | [] ->
+                Some ((TI (Zneg (XO (XI (XI (XI (XI (XO XH)))))))) :: [])
+              | sk :: l1 ->
+                (match l1 with
+                 | [] ->
+                   Some ((TI (Zneg (XO (XI (XI (XI (XI (XO XH)))))))) :: [])
+                 | nev :: r ->
+                   let n0 = Z.to_nat nev in
+                   let (es, pbs) = take_xevents (firstn n0 r) bs in
+                   let rq = arg_packet pbs (skipn n0 r) in
+                   let s = xrun md5 rt mx (Z.eqb sk (Zpos XH)) rq xinit es in
+                   Some
+                   (app
+                     (match s.xmain with
+                      | M_returned r0 ->
+                        (match r0 with
+                         | XPacket p -> (TI Z0) :: (t_packet p)
+                         | XErr e -> (TI (Zpos XH)) :: ((TI (Z.of_N e)) :: [])
+                         | XCtxErr -> (TI (Zpos (XO XH))) :: []
+                         | XNetErr -> (TI (Zpos (XI XH))) :: [])
+                      | _ -> (TI (Zpos (XI (XO (XO XH))))) :: []) ((TI
+                     (zlen s.sent)) :: ((TI
+                     (if s.conn_closed then Zpos XH else Z0)) :: [])))))))
+  else None
+
 (** val dispatch : bytes -> bytes list -> z list -> tok list **)
 
 let dispatch name bs zs =
@@ -10684,5 +10903,8 @@ let dispatch name bs zs =
                                 (match dispatch_c06 name bs zs with
                                  | Some t -> t
                                  | None ->
-                                   (TI (Zneg (XI (XO (XO (XO (XO (XI
-                                     XH)))))))) :: []))))))
+                                   (match dispatch_c08 name bs zs with
+                                    | Some t -> t
+                                    | None ->
+                                      (TI (Zneg (XI (XO (XO (XO (XO (XI
+                                        XH)))))))) :: [])))))))
